@@ -37,6 +37,54 @@ CHECKS = {
         "text": "Generated-input search over replace / replace_dict / canonicalize / identical / excavate_ite / burrow_ite / ite_cases / ite_dict / reverse_ite_cases / chop / get_bytes: each result is compared with an executable specification of the utility (IR-level substitution, first-true-case, table lookup, byte slicing, injective sort-preserving renaming, existence of a variable bijection for identical()==True) on all assignments at <=10 variable bits, sampled assignments plus a Z3 validity query above.",
         "note": "identical(): only True answers are checked; reverse_ite_cases: exhaustiveness and per-case correctness, not exclusivity (not promised).",
     },
+    "C10": {
+        "level": "exploration",
+        "technique": 'property-based testing: generated Boolean expressions and solver histories with a one-sided validity oracle (exhaustive evaluation / Z3 / brute-force model set)',
+        "text": 'Generated-input search: whenever is_true/is_false (module functions, Bool methods, and every exact solver frontend, with and without extras, also on solvers derived by branch/blank_copy/split/combine/merge) answers True, the claim is checked against all assignments of the written tree, a Z3 validity query (incl. FP), or the brute-force model set of the solver. False answers are never checked.',
+        "note": 'Brute-force model-set reference is exact only within 17 variable bits (4 four-bit variables + 1 Boolean); latitude of DESIGN 3.2 (eval may return any feasible subset of the right size; empty result or UnsatError when no value exists; semantically constant queries answered without the solver).',
+    },
+    "C11": {
+        "level": "exploration",
+        "technique": 'stateful property-based testing: generated and bounded-exhaustive solver histories checked after every step against a brute-force model set',
+        "text": 'Generated-input search over operation histories on Solver and SolverCacheless (reuse off/on): random histories, cache-directed scenario rounds that repeat the same queries after further adds / branches, and every sequence of length <=3 (quick) / <=4 (thorough) over a 10-operation alphabet. Each answer is compared with the model set over all 2^17 assignments maintained from the constraints the harness added.',
+        "note": 'Brute-force model-set reference is exact only within 17 variable bits (4 four-bit variables + 1 Boolean); latitude of DESIGN 3.2 (eval may return any feasible subset of the right size; empty result or UnsatError when no value exists; semantically constant queries answered without the solver).',
+    },
+    "C12": {
+        "level": "exploration",
+        "technique": 'stateful property-based testing: generated SolverComposite histories (incl. split/combine/merge) vs a brute-force model set that knows nothing about children',
+        "text": 'Generated-input search over histories on SolverComposite (default, track=True, reuse on) whose constraints connect and disconnect variable groups in generated orders, with branch, simplify, split, combine, merge and blank_copy; every answer is checked against the brute-force model set; simplify() must preserve the model set of the stored constraints.',
+        "note": 'Brute-force model-set reference is exact only within 17 variable bits (4 four-bit variables + 1 Boolean); latitude of DESIGN 3.2 (eval may return any feasible subset of the right size; empty result or UnsatError when no value exists; semantically constant queries answered without the solver).',
+    },
+    "C13": {
+        "level": "exploration",
+        "technique": 'stateful property-based testing: generated histories on replacement/hybrid frontends; equality with the brute-force model set in exact configurations, containment in approximate mode',
+        "text": 'Generated-input search over histories on SolverReplacement (default, auto_replace=False) and SolverHybrid: exact configurations are checked for equality with the brute-force model set, approximate mode (exact=False) for containment (never unsat on a satisfiable set, min/max bounds, eval(<n results) contains all feasible values, solution True for feasible values).',
+        "note": 'Brute-force model-set reference is exact only within 17 variable bits (4 four-bit variables + 1 Boolean); latitude of DESIGN 3.2 (eval may return any feasible subset of the right size; empty result or UnsatError when no value exists; semantically constant queries answered without the solver). On an unsatisfiable set, answers of replacement-based frontends that follow from a replacement are accepted (same status as the concrete-expression shortcut).',
+    },
+    "C14": {
+        "level": "exploration",
+        "technique": 'stateful property-based testing: interleaved histories on a tree of branched solvers with per-branch brute-force model sets and differential isolated replay',
+        "text": "Generated-input search over interleavings on up to 8 live branches for every exact frontend class (reuse off/on). A wrong answer is re-run on the failing solver's own line of operations alone; only if it disappears there is it reported as a leak between branches (otherwise it is attributed to C11/C12/C13).",
+        "note": 'Brute-force model-set reference is exact only within 17 variable bits (4 four-bit variables + 1 Boolean); latitude of DESIGN 3.2 (eval may return any feasible subset of the right size; empty result or UnsatError when no value exists; semantically constant queries answered without the solver).',
+    },
+    "C15": {
+        "level": "exploration",
+        "technique": 'stateful property-based testing: generated solver tuples merged / combined / split, result model sets computed by set algebra on brute-force model sets',
+        "text": "Generated-input search: 2-3 solvers built by independent sub-histories (branches of an ancestor or unrelated, caches populated by queries), then merge (with/without ancestor), combine or split; the result's answers are checked against union/intersection/partition of the operands' brute-force model sets; split parts must have variable-disjoint constraint groups and be jointly equivalent.",
+        "note": "Brute-force model-set reference is exact only within 17 variable bits (4 four-bit variables + 1 Boolean); latitude of DESIGN 3.2 (eval may return any feasible subset of the right size; empty result or UnsatError when no value exists; semantically constant queries answered without the solver). 'Every conjunct exactly once' is checked as model-set equivalence.",
+    },
+    "C16": {
+        "level": "exploration",
+        "technique": 'stateful property-based testing: tracked-solver histories reaching unsatisfiability through generated add orders; core checked for element type, membership and unsatisfiability by brute force',
+        "text": 'Generated-input search on Solver/SolverComposite/SolverHybrid with track=True: contradiction families added in generated orders with queries, branches and provenance-tagged constraints interleaved; every unsat_core() result must be empty on a satisfiable solver and otherwise consist of added constraints (or their top-level conjuncts) whose conjunction has an empty brute-force model set.',
+        "note": 'Brute-force model-set reference is exact only within 17 variable bits (4 four-bit variables + 1 Boolean); latitude of DESIGN 3.2 (eval may return any feasible subset of the right size; empty result or UnsatError when no value exists; semantically constant queries answered without the solver). One open known finding (cores list simplified forms after simplify()).',
+    },
+    "C18": {
+        "level": "exploration",
+        "technique": 'property-based testing: generated expressions and solver histories pickled in-process and into child processes with other hash seeds; structural-dump and model-set oracles',
+        "text": 'Generated-input search: expressions of all sorts (annotated, FP, strings) must unpickle to the same object in-process, and in children with PYTHONHASHSEED 0/1/12345 to a structurally equal expression that is hash-consed with an identical rebuild; solver histories with pickle steps on every frontend class keep answering per the brute-force model set.',
+        "note": 'Brute-force model-set reference is exact only within 17 variable bits (4 four-bit variables + 1 Boolean); latitude of DESIGN 3.2 (eval may return any feasible subset of the right size; empty result or UnsatError when no value exists; semantically constant queries answered without the solver).',
+    },
 }
 
 NOT_APPLICABLE = {}
